@@ -351,6 +351,34 @@ def r4(ctx, R):
     di = q.calls(ds, name="_del_io")
     if not di or not any(t.endswith(".specs") and l == "F" for t, l in q.guards_of(ds, di[0])):
         R.bad(ds, ds.node, "an IO without specs stays registered (its path stays taken)", stmt="_del_io")
+    # an IO leaves the table only when it holds no spec (update_path re-keys it: delete + insert of the same object)
+    import re as _re
+
+    def _empty_guard(g):
+        for t, l in g:
+            if l == "F" and t.endswith(".specs"):
+                return True
+            if l == "T" and (_re.fullmatch(r"not .*\.specs", t) or _re.fullmatch(r"len\(.*\.specs\) == 0", t)
+                             or _re.fullmatch(r"len\(.*\.specs\) < 1", t)):
+                return True
+        return False
+    for f in ctx.repo.module("modelx.io.baseio").all_funcs:
+        if f.cls is None or f.cls.name != "IOManager":
+            continue
+        for st, t in q.subscript_writes(f, "ios"):
+            if not isinstance(st, ast.Delete) or norm(t.value) != "self.ios":
+                continue
+            R.inst("%s: `%s` only for an IO without specs" % (f.short, norm(st)))
+            if f.short == "IOManager.update_path":
+                continue        # re-keyed below in the same branch
+            if f.short == "IOManager._del_io":
+                rs_ = [r_ for r_ in q.raises(f) if any(t2.endswith(".specs") and l2 == "T" for t2, l2 in q.guards_of(f, r_))]
+                if not rs_ or q.path_between(f, st, rs_[0]):
+                    R.bad(f, st, "_del_io can drop an IO that still holds specs")
+                continue
+            if not _empty_guard(q.guards_of(f, st)):
+                R.bad(f, st, "a file entry is dropped although it may still hold live specs: their values stay bound but are "
+                             "no longer listed, found or written (guards: %s)" % sorted(q.guards_of(f, st)))
     gs = ctx.func("IOManager.get_spec_from_value")
     R.inst("get_spec_from_value searches the asking model's IOs and the absolute-path ones only")
     iv = [norm(v) for v in assigned_value(gs, "ios")]
